@@ -93,22 +93,25 @@ static int reassemble(struct websocket *s, uint8_t *msg, size_t length)
 			if (unlikely(strm->next_in == NULL)) {
 				log_err("Reassemble: Not enough memory for alloc!");
 				strm->avail_in = 0;
-				free(strm->next_in);
 				return -1;
 			}
 			strm->avail_in = memory - 4;
 			write_int_to_array(strm->next_in, memory);
 		}
-		if (strm->avail_in <= length + 4) {
-			unsigned int next_size = read_int_from_array(strm->next_in) * 2;
-			strm->next_in = realloc(strm->next_in, next_size);
-			if (unlikely(strm->next_in == NULL)) {
+		while (strm->avail_in <= length + 4) {
+			/* grow until the fragment fits, a single doubling is not enough for a large fragment behind a small one */
+			unsigned int current_size = read_int_from_array(strm->next_in);
+			unsigned int next_size = current_size * 2;
+			uint8_t *bigger = realloc(strm->next_in, next_size);
+			if (unlikely(bigger == NULL)) {
 				log_err("Reassemble: Not enough memory for realloc!");
-				strm->avail_in = 0;
 				free(strm->next_in);
+				strm->next_in = NULL;
+				strm->avail_in = 0;
 				return -1;
 			}
-			strm->avail_in += next_size / 2;
+			strm->next_in = bigger;
+			strm->avail_in += current_size;
 			write_int_to_array(strm->next_in, next_size);
 		}
 		unsigned int write_offset = read_int_from_array(strm->next_in) - strm->avail_in;
@@ -123,25 +126,30 @@ static enum websocket_callback_return private_decompress(struct websocket *s, ui
 	int ret;
 	z_stream *strm = &s->extension_compression.strm_decomp;
 
-	strm->avail_in = length + 4;
+	*free_ptr = NULL;
 	uint8_t *in = malloc(length + 4);
 	if (in == NULL) {
 		log_err("inflate in error: malloc");
+		strm->avail_in = 0;
+		strm->next_in = Z_NULL;
 		return WS_ERROR;
 	}
-	memcpy(in, msg, length);
+	strm->avail_in = length + 4;
+	if (length > 0) {
+		memcpy(in, msg, length);
+	}
 	in[length] = 0x00;
 	in[length + 1] = 0x00;
 	in[length + 2] = 0xFF;
 	in[length + 3] = 0xFF;
 	strm->next_in = in;
 
-	size_t size_out = 20 * length;
+	size_t size_out = 20 * length + 16;
 	strm->avail_out = size_out;
 	*free_ptr = malloc(size_out);
 	if (*free_ptr == NULL) {
 		log_err("inflate out error: malloc");
-		return WS_ERROR;
+		goto error;
 	}
 	uint8_t *out = *free_ptr;
 	strm->next_out = out;
@@ -149,11 +157,12 @@ static enum websocket_callback_return private_decompress(struct websocket *s, ui
 		if (strm->avail_out == 0) {
 			strm->avail_out += size_out;
 			size_out *= 2;
-			*free_ptr = realloc(*free_ptr, size_out);
-			if (*free_ptr == NULL) {
+			uint8_t *bigger = realloc(*free_ptr, size_out);
+			if (bigger == NULL) {
 				log_err("inflate out error: realloc");
-				return WS_ERROR;
+				goto error;
 			}
+			*free_ptr = bigger;
 			out = *free_ptr;
 			strm->next_out = out + size_out / 2;
 		}
@@ -165,17 +174,39 @@ static enum websocket_callback_return private_decompress(struct websocket *s, ui
 		if (ret < Z_OK && ret != Z_BUF_ERROR) {
 			log_err("inflate error:");
 			print_converted_ret(ret);
-			inflateEnd(strm);
-			return WS_ERROR;
+			inflateReset(strm);
+			goto error;
+		}
+		if (ret == Z_STREAM_END) {
+			/*
+			 * The message ended with a block that has the BFINAL bit set
+			 * (RFC 7692, 7.2.3.4). What is left of the input is the
+			 * appended tail. The next message starts a new deflate stream.
+			 */
+			*have = size_out - strm->avail_out;
+			inflateReset(strm);
+			strm->avail_in = 0;
+			strm->next_in = Z_NULL;
+			free(in);
+			return WS_OK;
 		}
 	}while(strm->avail_out == 0);
-	free(in);
 	if (strm->avail_in != 0) {
-		log_err("Shit happens! Not all data is decompressed");
-		return WS_ERROR;
+		log_err("Not all data is decompressed");
+		goto error;
 	}
+	free(in);
+	strm->next_in = Z_NULL;
 	*have = size_out - strm->avail_out;
 	return WS_OK;
+
+error:
+	free(in);
+	free(*free_ptr);
+	*free_ptr = NULL;
+	strm->avail_in = 0;
+	strm->next_in = Z_NULL;
+	return WS_ERROR;
 }
 
 enum websocket_callback_return text_received_comp(bool is_compressed, struct websocket *s, char *msg, size_t length,
@@ -210,12 +241,23 @@ enum websocket_callback_return text_frame_received_comp(bool is_compressed, stru
 		enum websocket_callback_return ret;
 		size_t have = 0;
 		uint8_t *free_ptr = NULL;
-		uint8_t *in_ptr = strm->next_in;
-		size_t sumLen = read_int_from_array(strm->next_in) - strm->avail_in - 4;
-		memmove(strm->next_in, strm->next_in + 4, sumLen);
+		uint8_t *in_ptr = NULL;
+		uint8_t empty = 0;
+		uint8_t *assembled = &empty;
+		size_t sumLen = 0;
+		if (strm->avail_in != 0) {
+			/* otherwise every fragment was empty and nothing was assembled */
+			in_ptr = strm->next_in;
+			sumLen = read_int_from_array(strm->next_in) - strm->avail_in - 4;
+			memmove(strm->next_in, strm->next_in + 4, sumLen);
+			assembled = strm->next_in;
+		}
 
-		ret = private_decompress(s, strm->next_in, sumLen, &free_ptr, &have);
-		if (ret == WS_ERROR) return ret;
+		ret = private_decompress(s, assembled, sumLen, &free_ptr, &have);
+		if (ret == WS_ERROR) {
+			free(in_ptr);
+			return ret;
+		}
 		ret = text_frame_received(s,(char *) free_ptr, have, is_last_frame);
 		free(in_ptr);
 		free(free_ptr);
@@ -257,11 +299,23 @@ enum websocket_callback_return binary_frame_received_comp(bool is_compressed, st
 		enum websocket_callback_return ret;
 		size_t have = 0;
 		uint8_t *free_ptr = NULL;
-		uint8_t *in_ptr = strm->next_in;
-		size_t sumLen = read_int_from_array(strm->next_in) - strm->avail_in - 4;
-		memmove(strm->next_in, strm->next_in + 4, sumLen);
-		ret = private_decompress(s, strm->next_in, sumLen, &free_ptr, &have);
-		if (ret == WS_ERROR) return ret;
+		uint8_t *in_ptr = NULL;
+		uint8_t empty = 0;
+		uint8_t *assembled = &empty;
+		size_t sumLen = 0;
+		if (strm->avail_in != 0) {
+			/* otherwise every fragment was empty and nothing was assembled */
+			in_ptr = strm->next_in;
+			sumLen = read_int_from_array(strm->next_in) - strm->avail_in - 4;
+			memmove(strm->next_in, strm->next_in + 4, sumLen);
+			assembled = strm->next_in;
+		}
+
+		ret = private_decompress(s, assembled, sumLen, &free_ptr, &have);
+		if (ret == WS_ERROR) {
+			free(in_ptr);
+			return ret;
+		}
 		ret = binary_frame_received(s, free_ptr, have, is_last_frame);
 		free(in_ptr);
 		free(free_ptr);
@@ -392,5 +446,12 @@ void free_compression(struct websocket *ws)
 {
 	if (ws->extension_compression.compression_level == 0) return;
 	deflateEnd(*ws->extension_compression.strm_comp);
-	inflateEnd(&ws->extension_compression.strm_decomp);
+	z_stream *infl = &ws->extension_compression.strm_decomp;
+	if ((infl->avail_in != 0) && (infl->next_in != Z_NULL)) {
+		/* fragments of an unfinished message, see reassemble() */
+		free(infl->next_in);
+		infl->next_in = Z_NULL;
+		infl->avail_in = 0;
+	}
+	inflateEnd(infl);
 }
